@@ -186,8 +186,18 @@ def _strategy_feat(shapes):
                 "c": draw(gen.feature_params(kind, Dx, Dy, Dk)),
                 "q": {"Sigma": draw(gen.spd(Rq, Dy + Dx, kappa=6.0, lam_lo=0.15, lam_hi=0.4)), "mu": draw(gen.arr((Rq, Dy + Dx), -1.5, 1.5))},
                 "px": {"Sigma": draw(gen.spd(Rp, Dx, kappa=6.0, lam_lo=0.15, lam_hi=0.4)), "mu": draw(gen.arr((Rp, Dx), -1.5, 1.5))},
-                "y": draw(gen.arr((N, Dy), -2.5, 2.5)), "give_px": draw(st.booleans())}
+                "y": draw(gen.arr((N, Dy), -2.5, 2.5)), "give_px": draw(st.booleans()),
+                # objects with a past: conditional built with another noise covariance, queried, then update_Sigma to the
+                # target; p(x) first handed to integrate_log_conditional_y, then updated in place
+                "past": ({"Sigma0": draw(gen.spd(1, Dy, kappa=30.0))} if draw(st.sampled_from([False, False, True])) else None),
+                "upd": _px_update(draw, Rp, Dx) if draw(st.sampled_from([False, False, True])) else None}
     return s()
+
+
+def _px_update(draw, R, Dx):
+    k = draw(st.integers(1, R))
+    idx = list(draw(st.permutations(list(range(R))))[:k])
+    return {"idx": idx, "p": {"Sigma": draw(gen.spd(k, Dx, kappa=6.0, lam_lo=0.15, lam_hi=0.4)), "mu": draw(gen.arr((k, Dx), -1.5, 1.5))}}
 
 
 def _elc_feature_closed(M, b, S, forms, mq, Sq, Dy, Dx):
@@ -255,9 +265,9 @@ def _run_feat(case):
     def mean_fn(X):
         return np.concatenate([X, kfun(X)], 1) @ M.T + b  # [Q,Dy]
 
-    ok, c = lib(fails, "construct_feature", libx.make_feature, case["c"])
+    c = libx.feature_with_past(fails, case["c"], case.get("past"))
     ok2, q = lib(fails, "construct_q", libx.make_measure, "pdf", case["q"])
-    if not (ok and ok2):
+    if c is None or not ok2:
         return fails
     mq, Sq = np.asarray(case["q"]["mu"], float), np.asarray(case["q"]["Sigma"], float)
     want, scale, conv = np.zeros(Rq), np.zeros(Rq), True
@@ -297,10 +307,10 @@ def _run_feat(case):
         if ok:
             check(fails, tag, got, want, scale * kS)
     # integrate_log_conditional_y
-    mx, Sx = np.asarray(case["px"]["mu"], float), np.asarray(case["px"]["Sigma"], float)
     y = np.asarray(case["y"], float)
-    ok, px = lib(fails, "construct_px", libx.make_measure, "pdf", case["px"])
-    if not ok:
+    px, mx, Sx = libx.density_with_past(fails, "pdf", case["px"], case.get("upd"),
+                                        warm=lambda p: c.integrate_log_conditional_y(p, y=J(y)))
+    if px is None:
         return fails
     wy, sy, conv = np.zeros(N), np.zeros(N), True
     for n in range(N):
@@ -344,6 +354,7 @@ SUBS = [
         lambda c: [f"kind={c['kind']}", f"Rc={'Rq' if c['Rc'] > 1 else 1}", f"px={c['px_mode']}"],
         examples={"quick": 100, "thorough": 500}, shards={"quick": 8, "thorough": 14}, rule="Dx+Dy>=3 or Rq>=2"),
     Sub("feature", _pool_feat, _strategy_feat, _run_feat, lambda c: c["Dk"] >= 2 or c["Dx"] >= 2,
-        lambda c: [f"kind={c['kind']}", f"Dx={c['Dx']}", f"px={c['px_mode']}", f"give_px={c['give_px']}"],
+        lambda c: [f"kind={c['kind']}", f"Dx={c['Dx']}", f"px={c['px_mode']}", f"give_px={c['give_px']}", f"Dk={'>16' if c['Dk'] > 16 else '<=5'}",
+                   "cond_past=update_Sigma" if c.get("past") else "cond_fresh", "px_past=update" if c.get("upd") else "px_fresh"],
         examples={"quick": 40, "thorough": 250}, shards={"quick": 9, "thorough": 16}, rule="Dk>=2 or Dx>=2"),
 ]
